@@ -1333,7 +1333,8 @@ class t2eri_A(RegisteredIntermediate):
         pi1 = pi1.expand_itmd if fully_expand else pi1.tensor
         pi2 = pi2.expand_itmd if fully_expand else pi2.tensor
         # build the itmd
-        pia = (0.5 * pi1(indices=(i, j, k, a), return_sympy=True)
+        pia = (Rational(1, 2)
+               * pi1(indices=(i, j, k, a), return_sympy=True)
                + pi2(indices=(i, j, k, a), return_sympy=True)
                - pi2(indices=(j, i, k, a), return_sympy=True))
         target = (i, j, k, a)
@@ -1366,7 +1367,8 @@ class t2eri_B(RegisteredIntermediate):
         pi6 = pi6.expand_itmd if fully_expand else pi6.tensor
         pi7 = pi7.expand_itmd if fully_expand else pi7.tensor
         # build the itmd
-        pib = (-0.5 * pi6(indices=(i, a, b, c), return_sympy=True)
+        pib = (-Rational(1, 2)
+               * pi6(indices=(i, a, b, c), return_sympy=True)
                + pi7(indices=(i, a, b, c), return_sympy=True)
                - pi7(indices=(i, a, c, b), return_sympy=True))
         target = (i, a, b, c)
